@@ -277,6 +277,11 @@ class FnTranslator:
                     "".join(self.param_types.get(S(e[1][1]), "").split()).startswith("implInto<Option<"):
                 # `x.into()` of a parameter declared `impl Into<Option<T>>`: an Option stays, anything else becomes Some
                 return "(ECall \"into_option\" [%s])" % self.expr(e[1])
+            if self.interior and name == "push" and len(e) == 4 and e[1][0] == "path" and len(e[1]) == 2:
+                x = S(e[1][1])                     # `v.push(x)` on a local vector: v = v ++ [x]
+                return "(EAssign %s [] (ECall \"push\" [EVar %s; %s]))" % (cs(x), cs(x), self.expr(e[3]))
+            if self.interior and name == "collect" and len(e) == 3 and e[1][0] == "mcall" and S(e[1][2]) in ("iter", "into_iter") and len(e[1]) == 3:
+                return self.expr(e[1][1])          # `xs.iter().collect()`: the same elements
             if self.interior and name in ("map", "collect", "zip") and self.has_zip(e):
                 return self.iter_pipeline(e)
             if self.interior and name == "collect" and len(e) == 3 and e[1][0] == "mcall" and S(e[1][2]) == "map":
@@ -897,6 +902,19 @@ def translate_bridge_logic():
         t.interior = True
     kv2 = fetch_ast(os.path.join(common.REPO, "sylvia-derive", "src", "types", "msg_type.rs"))
     out += translate_methods("types/msg_type.rs", {"MsgType": ["emit_ctx_dispatch_values"]}, setup=setup2, kv=kv2, extra_known=known)
+
+    # the contract-level message itself: GlueMessage::emit puts the per-interface pieces and the contract's own together
+    def setup3(t):
+        t.interior = True
+        t.symbolic_methods = {"emit_msg_wrapper_name", "as_accessor_name", "emit_ep_name", "span", "fold_type", "emit_ctx_type",
+                              "emit_result_type", "query_or_default", "msg_or_default", "variants_modules", "variants_names"}
+        t.own_methods = {n: "Interfaces::" + n for n in ("emit_glue_message_variants", "emit_glue_message_types", "emit_messages_call",
+                                                         "emit_dispatch_arms", "emit_deserialization_attempts", "emit_response_schemas_calls")}
+    FOREIGN.update({"emit_bracketed_generics": "emit_bracketed_generics"})
+    kv3 = fetch_ast(os.path.join(common.REPO, "sylvia-derive", "src", "contract", "communication", "wrapper_msg.rs"))
+    known3 = known | {"Interfaces::" + n for n in ("emit_glue_message_variants", "emit_glue_message_types", "emit_messages_call",
+                                                   "emit_dispatch_arms", "emit_deserialization_attempts", "emit_response_schemas_calls")}
+    out += translate_methods("contract/communication/wrapper_msg.rs", {"GlueMessage": ["emit"]}, setup=setup3, kv=kv3, extra_known=known3)
     return out
 
 
@@ -1052,33 +1070,38 @@ def generate():
 
         "(* sylvia/src/into_response.rs: IntoMsg / IntoResponse; `enabled_features` = the cargo features switched on *)",
         "Definition resp_program (enabled_features : list string) : program :=", prog(resp), ""])
-    global LAST_MACRO_TEXT
+    global LAST_MACRO_TEXT, LAST_EXTRA_TEXTS
     merr = [e for e in errors if e.startswith("macro logic")]
-    LAST_MACRO_TEXT = "\n".join([
-        "(* GENERATED on every run by py/verif/imp_translate.py from /repo/sylvia-derive/src (entry_points.rs,",
-        "   parser/attributes/override_entry_point.rs, contract/mt.rs): the macro's own decision logic. Do not edit.",
-        "   (A file of its own so that a change of the run-time library does not re-check the theorems about the macro.) *)",
-        "From Coq Require Import String List.", "Require Import SV.Model.Imp.", "Import ListNotations.",
-        "Open Scope string_scope.", ""] +
-        ["(* NOT TRANSLATED: %s *)" % e.replace("*)", "* )") for e in merr] + [
-        "(* EntryPoints::emit (which entry points exist) and get_entry_point *)",
+
+    def gen_file(what, defs):
+        return "\n".join([
+            "(* GENERATED on every run by py/verif/imp_translate.py from /repo/sylvia-derive/src: %s. Do not edit." % what,
+            "   (A file of its own so that a change elsewhere does not re-check the theorems about this part.) *)",
+            "From Coq Require Import String List.", "Require Import SV.Model.Imp.", "Import ListNotations.",
+            "Open Scope string_scope.", ""] +
+            ["(* NOT TRANSLATED: %s *)" % e.replace("*)", "* )") for e in merr] + defs + [""])
+    LAST_MACRO_TEXT = gen_file("the macro's own decision logic (entry_points.rs, override_entry_point.rs, contract/mt.rs)", [
+        "(* EntryPoints::emit (which entry points exist), emit_default_entry_point and get_entry_point *)",
         "Definition macro_fns : program :=", prog(macro), "",
         "(* which body each operation of the generated `impl cw_multi_test::Contract` gets (contract/mt.rs) *)",
-        "Definition mtlogic_fns : program :=", prog(mtlogic), "",
-        "(* the match arm of a message variant: MsgVariant::emit_dispatch_leg, MsgType::emit_dispatch_leg *)",
-        "Definition leg_fns : program :=", prog(legs), "",
-        "(* the arms of the contract-level dispatch for the interfaces: Interfaces::emit_dispatch_arms, MsgType::emit_ctx_dispatch_values *)",
-        "Definition bridge_fns : program :=", prog(bridge), ""])
+        "Definition mtlogic_fns : program :=", prog(mtlogic)])
+    LAST_EXTRA_TEXTS = {
+        "GenImpLeg.v": gen_file("the match arm of a message variant (types/msg_variant.rs, types/msg_type.rs)", [
+            "Definition leg_fns : program :=", prog(legs)]),
+        "GenImpBridge.v": gen_file("the contract-level message (types/interfaces.rs, types/msg_type.rs, contract/communication/wrapper_msg.rs)", [
+            "(* Interfaces::emit_*, MsgType::emit_ctx_dispatch_values, GlueMessage::emit *)",
+            "Definition bridge_fns : program :=", prog(bridge)])}
     return text, errors
 
 
 LAST_MACRO_TEXT = None
+LAST_EXTRA_TEXTS = {}
 
 
 def write(text):
     """GenImp.v and (from the same generate() call) GenImpMacro.v; a file is rewritten only when its text changes"""
     out = None
-    for name, t in (("GenImp.v", text), ("GenImpMacro.v", LAST_MACRO_TEXT)):
+    for name, t in [("GenImp.v", text), ("GenImpMacro.v", LAST_MACRO_TEXT)] + sorted(LAST_EXTRA_TEXTS.items()):
         if t is None:
             continue
         path = os.path.join(COQ, "theories", "Model", name)
